@@ -93,8 +93,13 @@ def is_known(known, pid, case, obligation):
     for k in known:
         if k.get("status") != "known":
             continue
-        if k["property"] == pid and k["case"] == case and (k.get("obligation") in (None, "*", obligation)):
-            return k
+        if k["property"] == pid and k["case"] == case:
+            if k.get("obligation_regex"):
+                import re
+                if re.search(k["obligation_regex"], obligation):
+                    return k
+            elif k.get("obligation") in (None, "*", obligation):
+                return k
     return None
 
 
@@ -176,11 +181,11 @@ def main(argv=None):
                 code = EXIT_HARNESS
     seenk = set()
     for k, v in known_hit:
-        kk = (k["case"], k.get("obligation"))
+        kk = (k["case"], k.get("obligation") or k.get("obligation_regex"))
         if kk in seenk:
             continue
         seenk.add(kk)
-        lines.append(f"KNOWN-FINDING: property={pid} case={k['case']} obligation={k.get('obligation')} {k.get('what','')}")
+        lines.append(f"KNOWN-FINDING: property={pid} case={k['case']} obligation={k.get('obligation') or k.get('obligation_regex')} {k.get('what','')}")
     # every listed known finding of this property must still be observed? (not required) -- report those not seen
     wall = time.time() - t0
     if not a.no_evidence and a.case is None:
@@ -246,7 +251,7 @@ def write_evidence(pid, tier, seed, results, wall, viol_n, mod, known_hit):
             "inconclusive": incon,
             "bug_hunt_only": {"searched": sum(r.get("hunted", 0) for r in results), "not_refuted": sum(r.get("not_refuted", 0) for r in results),
                               "note": "bounded counterexample search on degenerate paths whose infeasibility the solver cannot decide; outside the claim"},
-            "known_findings_observed": [f"{k['case']}/{k.get('obligation')}" for k, _ in known_hit],
+            "known_findings_observed": sorted({f"{k['case']}/{k.get('obligation') or k.get('obligation_regex')}" for k, _ in known_hit}),
             "lemmas_substituted": sorted({l for r in results for l in r.get("lemmas", [])}),
         },
         "assumptions": extra.get("assumptions", []) + [
